@@ -202,7 +202,7 @@ class C19(Check):
         def grammars(draw):
             m = draw(st.integers(0, 5))
             if m <= 1:
-                return draw(gens_rich.rich_grammar(nrules=3, depth=3)), 'rich'
+                return draw(gens_rich.rich_grammar(nrules=3, depth=3, mode='bytes' if draw(st.integers(0, 3)) == 0 else 'text')), 'rich'
             if m == 2:
                 g = draw(gens.core_grammar(nrules=4, depth=4, mode=draw(st.sampled_from(['text', 'bytes']))))
                 if draw(st.booleans()):
